@@ -128,6 +128,9 @@ class DocGen:
                 run = r.randint(1, max(1, left)) if r.random() < 0.5 else min(left, r.randint(1, 4))
                 counters[level] += 1
                 label = f"@{'ABCDEFGH'[level]}{counters[level]}"
+                if r.random() < 0.12:
+                    # the separators the library itself joins group texts with may occur inside a value
+                    label += r.choice([" | x", ", y", ": z", " | @", " -----"])
                 if dividers and r.random() < 0.3:
                     label = "-----"
                 if nulls and r.random() < 0.15:
@@ -205,6 +208,8 @@ class DocGen:
         if r.random() < 0.2:
             p["margin"] = [r.choice([0.5, 0.75, 1.0, 1.25]) for _ in range(6)]
         p["nrow"] = r.randint(*nrow_range)
+        if r.random() < 0.08:
+            p["nrow"] = r.choice([1, 2])      # pages of a single row
         if r.random() < 0.5:
             p["col_width"] = r.choice([4.0, 5.0, 6.0, 6.25, 6.5, 7.0, 8.0, 5.5])
         if r.random() < 0.4:
